@@ -116,6 +116,19 @@ class KeyedArrayCheck:
 			slot[1] = items
 		return element
 
+	def copy_key(self, source, target):
+		"""Gives `target` the key of `source` in place (for a key with a comparer: the compared members of the key object)."""
+		key_attr = codec.fix_name(self.key)
+		key_field = next(field for field in self.net.types[self.elem]['fields'] if field['name'] == self.key)
+		kind = key_field['kind']
+		if 'ref' == kind['k'] and 'struct' == self.net.types[kind['ty']]['k'] and self.net.types[kind['ty']]['comparer']:
+			inner_source, inner_target = getattr(source, key_attr), getattr(target, key_attr)
+			for name, _ in self.net.types[kind['ty']]['comparer']:
+				attribute = codec.fix_name(name)
+				setattr(inner_target, attribute, getattr(inner_source, attribute))
+		else:
+			setattr(target, key_attr, getattr(source, key_attr))
+
 	def swap_keys(self, first, second):
 		"""Swaps the key members of two entry objects in place (for a key with a comparer: the compared members of the key object)."""
 		key_attr = codec.fix_name(self.key)
